@@ -155,6 +155,11 @@ func mLock(x *Exec, st *State, a []*Val, s *types.Signature, p token.Pos) *Val {
 	h := x.lockComp(st, m.P)
 	arr := x.use(h)
 	x.oblige(st, "lock", "", "re-lock of "+pathString(m.P.Root, m.P.Path), not(sel(arr, m.P.Ref)), p)
+	// one critical section per operation: a lock released earlier in this operation is not taken
+	// again (otherwise the operation is not a single atomic step and its sequential contract says
+	// nothing about concurrent use)
+	rel := x.use(x.relComp(st, m.P))
+	x.oblige(st, "atomic", "", "second critical section on "+pathString(m.P.Root, m.P.Path), not(sel(rel, m.P.Ref)), p)
 	key := "L|" + typeKey(m.P.Root) + "|" + pathString(m.P.Root, m.P.Path)
 	x.setHeap(st, key, compInfo{sort: "(Array Int Bool)"}, sto(arr, m.P.Ref, "true"))
 	return nil
@@ -170,7 +175,27 @@ func mUnlock(x *Exec, st *State, a []*Val, s *types.Signature, p token.Pos) *Val
 	x.oblige(st, "lock", "", "unlock of unlocked "+pathString(m.P.Root, m.P.Path), sel(arr, m.P.Ref), p)
 	key := "L|" + typeKey(m.P.Root) + "|" + pathString(m.P.Root, m.P.Path)
 	x.setHeap(st, key, compInfo{sort: "(Array Int Bool)"}, sto(arr, m.P.Ref, "false"))
+	rk := "R|" + typeKey(m.P.Root) + "|" + pathString(m.P.Root, m.P.Path)
+	x.setHeap(st, rk, compInfo{sort: "(Array Int Bool)"}, sto(x.use(x.relComp(st, m.P)), m.P.Ref, "true"))
 	return nil
+}
+
+// relComp: "this lock was released earlier in the current operation". False everywhere when the
+// function under verification is entered.
+func (x *Exec) relComp(st *State, p *Ptr) *HeapSym {
+	key := "R|" + typeKey(p.Root) + "|" + pathString(p.Root, p.Path)
+	if h, ok := st.heap[key]; ok {
+		return h
+	}
+	ci := compInfo{sort: "(Array Int Bool)"}
+	x.keyInfo[key] = ci
+	bk := fmt.Sprintf("%s#%d", key, st.gen)
+	if h, ok := x.base[bk]; ok {
+		return h
+	}
+	h := &HeapSym{name: "rel0", sort: ci.sort, declared: true, term: "((as const (Array Int Bool)) false)"}
+	x.base[bk] = h
+	return h
 }
 
 func mTrailingZeros32(x *Exec, st *State, a []*Val, s *types.Signature, p token.Pos) *Val {
